@@ -245,8 +245,12 @@ impl Machine {
                     tags_emitted += n;
                     Some(ChunkSpec::Tags { tags: (first..first + n).map(|k| TagM { from: (k % 7) as u16, to: (k % 7) as u16, dir: 0, repeat: 0, color: 0x0011_2233 + k as u32 * 0x0001_0101, name: format!("T{}", k), ud: None }).collect(), reserved: [0; 8], tag_reserved: [0; 6] })
                 }
+                Sym::P4 if pos % 5 == 2 => Some(ChunkSpec::OldPalette { kind: 4, packets: vec![(0, (0..256u32).map(|k| [k as u8, 2, 3]).collect())] }),
                 Sym::P4 => Some(ChunkSpec::OldPalette { kind: 4, packets: vec![(0, vec![[1, 2, 3], [4, 5, 6]])] }),
                 Sym::P11 => Some(ChunkSpec::OldPalette { kind: 0x11, packets: vec![(0, vec![[1, 2, 3], [63, 0, 31]])] }),
+                // a palette chunk is ignorable whatever its size: 2 colours, or (at every fifth position) more than 256,
+                // the size from which Aseprite stops writing the legacy chunk beside it
+                Sym::PN if pos % 5 == 3 => Some(ChunkSpec::Palette { total: 300, first: 0, entries: (0..300u32).map(|k| PalChunkEntry { flags_extra: 0, rgba: [k as u8, (k >> 8) as u8, 7, 255], name: if k == 299 { Some("last".into()) } else { None } }).collect(), reserved: [0; 8] }),
                 Sym::PN => Some(ChunkSpec::Palette { total: 2, first: 0, entries: vec![PalChunkEntry { flags_extra: 0, rgba: [9, 8, 7, 255], name: None }, PalChunkEntry { flags_extra: 0, rgba: [1, 1, 1, 128], name: Some("n".into()) }], reserved: [0; 8] }),
                 Sym::I => Some(match pos % 4 {
                     0 => ChunkSpec::CelExtra,
